@@ -48,6 +48,9 @@ Inductive op :=
                                        starts at offset 0 and overwrites the old content from its head *)
 | Write (p : path) (bs : bytes)     (* fh.write: into the user-space buffer *)
 | Flush (p : path)                  (* fh.flush: buffer handed to the kernel *)
+| FlushShort (p : path) (k : nat)   (* the kernel accepts only the first k bytes of the buffer (disk full, quota,
+                                       RLIMIT_FSIZE): a buffered writer retries the rest, gets ENOSPC/EFBIG and
+                                       raises; an unbuffered one returns the short count.  The rest is lost. *)
 | Fsync (p : path)                  (* os.fsync(fh.fileno()) *)
 | Close (p : path)                  (* fh.close / end of the with block: flush, drop the handle *)
 | Rename (a b : path).              (* os.replace(a, b) *)
@@ -91,6 +94,11 @@ Definition step (o : op) (s : st) : option st :=
   | Flush p =>
       match lookup p (bufs s) with
       | Some b => Some {| disk := fappend p b (disk s); bufs := fset p [] (bufs s); tails := tails s |}
+      | None => None
+      end
+  | FlushShort p k =>
+      match lookup p (bufs s) with
+      | Some b => Some {| disk := fappend p (firstn k b) (disk s); bufs := fset p [] (bufs s); tails := tails s |}
       | None => None
       end
   | Fsync p =>
@@ -181,6 +189,11 @@ Definition fault_ops (tmp : path) (d0 : fs) (f : nat) (full : list op) : list op
              && negb (match nth_error full f with Some (Close _) => true | _ => false end)
           then [Close tmp] else []).
 
+(* The flush (call number f) is a short write of k bytes: the buffered writer raises, the
+   `with` block closes the file, save() raises - the rename is never reached. *)
+Definition short_ops (tmp : path) (f k : nat) (full : list op) : list op :=
+  firstn f full ++ [FlushShort tmp k; Close tmp].
+
 (* The protocol issued before commit d7405e0 (open the storage file itself with "w"). *)
 Definition inplace_ops (target : path) (chunks : list bytes) : list op :=
   OpenTrunc target :: map (Write target) chunks ++ [Close target].
@@ -193,6 +206,7 @@ Definition op_eqb (a b : op) : bool :=
   match a, b with
   | OpenTrunc p, OpenTrunc q | OpenNoTrunc p, OpenNoTrunc q | Flush p, Flush q | Fsync p, Fsync q | Close p, Close q => Nat.eqb p q
   | Write p x, Write q y => Nat.eqb p q && bytes_beq x y
+  | FlushShort p j, FlushShort q k => Nat.eqb p q && Nat.eqb j k
   | Rename a1 b1, Rename a2 b2 => Nat.eqb a1 a2 && Nat.eqb b1 b2
   | _, _ => false
   end.
@@ -235,7 +249,7 @@ Definition good_target (old : option bytes) (new : bytes) (c : fs) : bool :=
      obs      for crash point (k ops completed, j pending bytes written): the real
               directory afterwards (storage file, temporary file)                      *)
 Definition check_case
-  (c : option bytes * option bytes * option nat * list op * list (nat * nat * desc * desc)) : bool :=
+  (c : option bytes * option bytes * option (nat * option nat) * list op * list (nat * nat * desc * desc)) : bool :=
   let '(old, stale, fault, ops, obs) := c in
   let d0 := (match old with Some o => [(0, o)] | None => [] end)
             ++ (match stale with Some o => [(1, o)] | None => [] end) in
@@ -244,8 +258,10 @@ Definition check_case
   if negb (match fault, ops with
            | None, [] => true
            | None, _ => list_beq op_eqb ops (save_ops 1 0 (writes_of ops))
-           (* fault = Some f: call number f was made to fail *)
-           | Some f, _ => list_beq op_eqb ops (fault_ops 1 d0 f (save_ops 1 0 (writes_of ops)))
+           (* fault = Some (f, None): call number f was made to fail;
+              Some (f, Some k): call number f, the flush, was a short write of k bytes *)
+           | Some (f, None), _ => list_beq op_eqb ops (fault_ops 1 d0 f (save_ops 1 0 (writes_of ops)))
+           | Some (f, Some k), _ => list_beq op_eqb ops (short_ops 1 f k (save_ops 1 0 (writes_of ops)))
            end) then false else
   (* every crash state of the recorded op list keeps the storage file old or new (evaluated for
      short op lists; for any number of writes it is what C15_tmp_rename_atomic /
